@@ -12,6 +12,7 @@ pub enum Tier {
     Thorough,
 }
 
+#[allow(dead_code)]
 pub struct Profile {
     pub id: &'static str,
     pub title: &'static str,
